@@ -112,12 +112,15 @@ def main(tier, replay=None):
         for pieces in ([n], [1, n - 1] if n > 1 else [n], [n // 3, n // 3, n - 2 * (n // 3)]):
             p = subprocess.Popen([dud, "checksum"], env=env, stdin=subprocess.PIPE, stdout=subprocess.PIPE, stderr=subprocess.PIPE)
             off = 0
-            for k in pieces:
-                p.stdin.write(data[off:off + k])
-                p.stdin.flush()
-                off += k
-                time.sleep(0.01)
-            p.stdin.close()
+            try:
+                for k in pieces:
+                    p.stdin.write(data[off:off + k])
+                    p.stdin.flush()
+                    off += k
+                    time.sleep(0.01)
+                p.stdin.close()
+            except (BrokenPipeError, OSError):
+                pass            # the reader stopped reading early: its output is judged below
             out = ROOT_WARNING.sub(b"", p.stdout.read()).decode().split()
             p.wait()
             R.count("cli-pipe-%d-%s" % (n, pieces), True)
